@@ -117,7 +117,7 @@ pub struct WorkerResult {
     pub wall_s: f64,
 }
 
-/// worker stack: ArrayBuf<300000> and a few copies of it fit, 70 000 nested calls do not
+/// worker stack: ArrayBuf<1500000> and a few copies of it fit, 70 000 nested calls do not
 pub const STACK_BYTES: usize = if cfg!(debug_assertions) { 48 << 20 } else { 64 << 20 };
 
 /// true in the unoptimised build of the simulator (`cargo build` without `--release`)
@@ -183,6 +183,8 @@ pub fn worker(prop: &dyn Prop, a: &WorkerArgs) -> i32 {
         ..Default::default()
     };
     let progress_path = a.outdir.join(format!("progress-{}", a.shard));
+    let phase_path = a.outdir.join(format!("phase-{}", a.shard));
+    let _ = std::fs::remove_file(&phase_path);
     let mut fp_set: HashSet<u64> = HashSet::new();
     let mut hist_set: HashSet<u64> = HashSet::new();
     let mut st = Stats::default();
@@ -204,6 +206,9 @@ pub fn worker(prop: &dyn Prop, a: &WorkerArgs) -> i32 {
         }
         let _ = std::fs::write(&progress_path, idx.to_le_bytes());
         let (scn, run_seed) = scenario_at(prop, &directed, a.tier, a.seed, idx);
+        // generation is over, the code under test runs from here: a stall or abort before this
+        // mark is the simulator's own and is reported as a harness error, never as a violation
+        let _ = std::fs::write(&phase_path, idx.to_le_bytes());
         let want_sample = res.samples.len() < 2 && a.shard == 0;
         st.want_hist = want_sample;
         let r = catch(|| prop.exec(&scn, &mut st));
@@ -332,6 +337,15 @@ fn spawn_worker(prop: &str, tier: Tier, seed: u64, shard: u64, nshards: u64, out
         .stdout(Stdio::from(log.try_clone().expect("HARNESS: clone")))
         .stderr(Stdio::from(log));
     c.spawn().expect("HARNESS: spawn worker")
+}
+
+fn read_phase(outdir: &Path, shard: u64) -> Option<u64> {
+    let b = std::fs::read(outdir.join(format!("phase-{}", shard))).ok()?;
+    if b.len() == 8 {
+        Some(u64::from_le_bytes(b.try_into().unwrap()))
+    } else {
+        None
+    }
 }
 
 fn read_progress(outdir: &Path, shard: u64) -> Option<u64> {
@@ -470,6 +484,12 @@ pub fn check(prop: &dyn Prop, o: &CheckOpts) -> CheckReport {
             }
             if let Some(how) = crashed {
                 let idx = read_progress(&outdir, r.shard).unwrap_or(u64::MAX);
+                if idx != u64::MAX && read_phase(&outdir, r.shard) != Some(idx) {
+                    eprintln!("HARNESS ERROR: worker {} stopped ({}) while *generating* run {}: the simulator's generator stalled or died, nothing is known about the code under test", r.shard, how, idx);
+                    harness_error = true;
+                    running.swap_remove(i);
+                    continue;
+                }
                 crashes.push((r.shard, idx, how));
                 r.skip.push(idx);
                 // crash budget: a few crashes per shard and per batch are chased (the shard is re-run
@@ -565,6 +585,10 @@ pub fn check(prop: &dyn Prop, o: &CheckOpts) -> CheckReport {
                 Err(_) => break true,
             }
         };
+        if confirmed && read_phase(&outdir, *shard) != Some(*idx) {
+            eprintln!("HARNESS ERROR: run {} stopped ({}) while it was being *generated*, also when re-run alone: the simulator's generator stalls or dies", idx, how);
+            return CheckReport { exit: 2, outdir };
+        }
         if !confirmed {
             eprintln!(
                 "HARNESS ERROR: run {} crashed ({}) in the batch but not when re-run alone: nondeterminism",
